@@ -35,6 +35,11 @@ pub struct P6 {
     pub wsizes: Vec<u32>,
     pub reopen: bool,
     pub later: u8,
+    /// 0: the client's chain starts at nil and the payload is its second version;
+    /// 1: the payload is the client's first version, submitted with a non-nil parent;
+    /// 2: the chain starts from a non-nil parent and the payload is the second version
+    #[serde(default)]
+    pub first: u8,
 }
 
 fn v<T>(m: String) -> Result<T, Fail> {
@@ -106,9 +111,16 @@ fn check(p: &P6, st: &mut Stats) -> CheckResult {
     let mut conn = open(p)?;
     let c = case::client_uuid(6, 0);
     let small = Bytes::from_static(b"first");
-    let v1 = match conn.call(Endpoint::AddVersion, c, Uuid::nil(), Some(&small))? {
-        Outcome::Accepted { id, .. } => id,
-        o => return v(format!("setting up the first version: {}", o.short())),
+    let mode = if p.snapshot && p.first % 3 == 1 { 2 } else { p.first % 3 };
+    let base = if mode == 0 { Uuid::nil() } else { case::fresh_uuid(4242) };
+    // v1: the version the payload hangs off (mode 1: the non-nil id the chain starts from)
+    let v1 = if mode == 1 {
+        base
+    } else {
+        match conn.call(Endpoint::AddVersion, c, base, Some(&small))? {
+            Outcome::Accepted { id, .. } => id,
+            o => return v(format!("setting up the first version: {}", o.short())),
+        }
     };
     let body = Bytes::from(p.spec.expand());
     let what = format!(
@@ -233,13 +245,14 @@ fn p6(tier: Tier) -> BoxedStrategy<P6> {
         0u8..4,
     )
         .prop_map(move |(backend, entry, snapshot, (len, class, seed), mut sizes, enc, wsizes, reopen, later)| {
+            let first = ((seed >> 3) % 4) as u8 % 3;
             // one-byte chunks only for small bodies (the handler is linear in chunks, the harness too)
             if len > 20_000 && sizes.iter().any(|s| *s < 64) {
                 sizes = sizes.iter().map(|s| if *s == 0 { 0 } else { *s * 997 + 64 }).collect();
             }
             // sockets: bound the size so a quick run stays quick
             let len = if entry == Entry::Sock { len.min(8 << 20) } else { len };
-            P6 { backend, entry, snapshot, spec: BytesSpec { len, class, seed }, sizes, enc, wsizes, reopen, later }
+            P6 { backend, entry, snapshot, spec: BytesSpec { len, class, seed }, sizes, enc, wsizes, reopen, later, first }
         })
         .boxed()
 }
@@ -259,7 +272,7 @@ pub fn run(tier: Tier, seed: u64) -> Report {
     if rep.failed() {
         return rep;
     }
-    let r = engine::explore("C06", "payload", seed, tier.pick(2500, 60_000), || p6(tier), check);
+    let r = engine::explore("C06", "payload", seed, tier.pick(8000, 60_000), || p6(tier), check);
     rep.absorb("round-trip", r);
     if rep.failed() {
         return rep;
